@@ -5,5 +5,5 @@ cd "$(dirname "${BASH_SOURCE[0]}")"
 export GOFLAGS=-mod=mod GOPROXY=off GOSUMDB=off GOTOOLCHAIN=local
 mkdir -p .bin .work evidence replays
 go build -o .bin/vcheck.setup ./cmd/vcheck && rm -f .bin/vcheck.setup
-go test -c -tags verif -vet=off -o .bin/props.setup ./props && rm -f .bin/props.setup
+GODEBUG=goindex=0 go test -c -tags verif -vet=off -o .bin/props.setup ./props && rm -f .bin/props.setup
 echo "setup ok"
